@@ -19,22 +19,25 @@ INSTANCE TreeInv WITH T <- TraceT
 VARIABLES l, forest, committed, known, lcalls
 tvars == <<l, forest, committed, known, lcalls>>
 
-Scalar(e) == [c |-> "s", w |-> e.w, v |-> e.id, sub |-> <<>>]
-ObsRoot(ro) == [c |-> ro.kind, w |-> 0, v |-> ro.rid, sub |-> ro.abs]
+Scalar(e) == [c |-> "s", w |-> e.w, v |-> e.id, ti |-> "", sub |-> <<>>]
+ObsRoot(ro) == [c |-> ro.kind, w |-> 0, v |-> ro.rid, ti |-> ro.ti, sub |-> ro.abs]
 ObsForest(rs) == [i \in 1..Len(rs) |-> ObsRoot(rs[i])]
 
 \* order-insensitive normal form: maps become sets of <<key, value>>
 RECURSIVE Canon(_)
 Canon(x) ==
-  IF x.c = "A" THEN [c |-> "A", w |-> x.w, v |-> x.v, sub |-> [i \in 1..Len(x.sub) |-> Canon(x.sub[i])]]
-  ELSE IF x.c = "M" THEN [c |-> "M", w |-> x.w, v |-> x.v,
+  IF x.c = "A" THEN [c |-> "A", w |-> x.w, v |-> x.v, ti |-> x.ti, sub |-> [i \in 1..Len(x.sub) |-> Canon(x.sub[i])]]
+  ELSE IF x.c = "M" THEN [c |-> "M", w |-> x.w, v |-> x.v, ti |-> x.ti,
                           sub |-> {<<Canon(x.sub[2 * i - 1]), Canon(x.sub[2 * i])>> : i \in 1..(Len(x.sub) \div 2)}]
-  ELSE [c |-> x.c, w |-> x.w, v |-> x.v, sub |-> <<>>]
+  ELSE [c |-> x.c, w |-> x.w, v |-> x.v, ti |-> "", sub |-> <<>>]
 CanonForest(f) == [i \in 1..Len(f) |-> Canon(f[i])]
 
 IsC(x) == x.c \in {"A", "M"}
 \* the sub-elements of container vid inside value x (<<>> if absent) and replacement
-RECURSIVE Has(_, _), SubOf(_, _), Repl(_, _, _)
+RECURSIVE Has(_, _), SubOf(_, _), Repl(_, _, _), ReplTi(_, _, _)
+ReplTi(x, vid, ti) == IF ~IsC(x) THEN x
+                      ELSE IF x.v = vid THEN [x EXCEPT !.ti = ti]
+                      ELSE [x EXCEPT !.sub = [i \in 1..Len(x.sub) |-> ReplTi(x.sub[i], vid, ti)]]
 Has(x, vid) == IsC(x) /\ (x.v = vid \/ \E i \in 1..Len(x.sub) : Has(x.sub[i], vid))
 SubOf(x, vid) == IF x.v = vid /\ IsC(x) THEN x.sub
                  ELSE LET i == CHOOSE j \in 1..Len(x.sub) : Has(x.sub[j], vid) IN SubOf(x.sub[i], vid)
@@ -58,7 +61,7 @@ KeyPos(sub, kid) == IF \E j \in 1..(Len(sub) \div 2) : sub[2 * j - 1].v = kid
 
 \* the value an op inserts, and the forest after taking it (attaching a detached root removes it from the roots)
 NewElem(f, r) ==
-  IF r.e.new # "" THEN [c |-> r.e.new, w |-> r.e.w, v |-> r.e.vid, sub |-> <<>>]
+  IF r.e.new # "" THEN [c |-> r.e.new, w |-> r.e.w, v |-> r.e.vid, ti |-> r.e.ti, sub |-> <<>>]
   ELSE IF r.e.ref # "" THEN LET i == CHOOSE j \in 1..Len(f) : f[j].v = r.e.vid IN [f[i] EXCEPT !.w = r.e.w]
   ELSE Scalar(r.e)
 Taken(f, r) == IF r.e.ref # "" THEN DropRoot(f, CHOOSE j \in 1..Len(f) : f[j].v = r.e.vid) ELSE f
@@ -100,7 +103,8 @@ Model(r) ==     \* [f |-> new forest, ok |-> the logged result is the one layer 
          LET s == FSub(f0, hv) IN
          [f |-> FRepl(f0, hv, <<>>), ok |-> r.res.class = "ok" /\ Len(r.res.seq) = Len(s)
                                            /\ {r.res.seq[i] : i \in 1..Len(s)} = {s[i].v : i \in 1..Len(s)}]
-    [] r.ev = "NSetType" -> [f |-> f0, ok |-> r.res.class = "ok"]
+    [] r.ev = "NSetType" ->     \* changes the type of that container only
+         [f |-> [f0 EXCEPT ![RootOf(f0, hv)] = ReplTi(@, hv, "S" \o ToString(r.ti))], ok |-> r.res.class = "ok"]
     [] r.ev = "NIter" ->      \* C13: mutable iteration yields every element once (arrays: in index order)
          LET s == FSub(f0, hv) IN
          [f |-> f0, ok |-> r.res.class = "ok" /\ Len(r.res.seq) = Len(s)
@@ -150,6 +154,14 @@ RootsStandalone == l > 1 => \A i \in 1..Len(Cur.roots) : ~Cur.roots[i].F[1].inl 
 \* C09
 NoLeak == l > 1 => Cur.st.stored = Cur.st.reach
 NoLedgerWrite == l > 1 => Cur.st.calls = lcalls
+
+\* C07: re-encoding the decoded register gives the identical bytes; header flags are truthful
+CommitOK(r) == r.ev = "Commit" /\ r.res.class = "ok"
+ColdSlabNodes(r) == UNION {SlabNodes(r.cold[i].F[1]) : i \in 1..Len(r.cold)}
+ReencodesExactly == (l > 1 /\ CommitOK(Cur)) => \A i \in 1..Len(Cur.regs) : Cur.regs[i].reenc
+FlagsTruthful == (l > 1 /\ CommitOK(Cur)) => \A i \in 1..Len(Cur.regs) : FlagsOf(Cur.regs[i], ColdSlabNodes(Cur))
+\* C06: the size a slab reports equals the bytes written
+EncodedLenRelation == (l > 1 /\ CommitOK(Cur)) => \A i \in 1..Len(Cur.regs) : SizeOf(Cur.regs[i], ColdSlabNodes(Cur))
 
 TraceAccepted ==
   LET d == TLCGet("stats").diameter IN
